@@ -129,6 +129,23 @@ CHECKS = {
                      "about half-written lines seen by a poll, or about other writers on the same stream. Non-decreasing time stamps are "
                      "demanded only under a non-decreasing wall clock.",
                 technique="bounded-exhaustive enumeration (full cartesian products, no sampling) of report x noise-placement x clock-pattern cases against a reference normal form"),
+    "C06": dict(engine="schedx", category="model_checking", design_ref="§2 C06",
+                text="Explicit-state BFS with digest dedup over all histories of {suggest, report, complete, fail, leave-pending} of the real "
+                     "schedulers (FIFO x random/grid/GP-BO, Hyperband stopping/promotion x random/GP multi-fidelity/HyperTune, DEHB, PBT) for "
+                     "spaces built from every public domain constructor x points_to_evaluate variants; a reference oracle (membership, value "
+                     "type, mid-point imputation, de-duplication, grid - recomputed from constructor arguments) judges every suggestion.",
+                note="Bounded: <=2 workers, <=2 failures; finite spaces of size 1/4/6/9/18 until the searcher answered None twice, other spaces to "
+                     "depth 9-14, real BO path to depth 8-12 under a state cap; random draws are those of 2-3 fixed seeds per configuration; "
+                     "quantisation of q* constructors belongs to C07.",
+                technique="explicit-state model checking of the implementation (BFS over event histories, digest dedup, reference oracle on every suggestion)"),
+    "C19": dict(engine="schedx+enumx", category="model_checking", design_ref="§2 C19",
+                text="BFS with digest dedup over all event histories {suggest(bracket), report(t), complete(t)} of the real MOASHA within the "
+                     "bounds, in lock-step with a reference of the documented rung rule; plus bounded-exhaustive input enumeration of "
+                     "pareto_efficient / nondominated_sort / MOPriority against brute-force dominance with scripted RNG answers.",
+                note="Bounds: T<=6, W<=3, <=2 brackets, <=3 objectives, max_t<=8; grid {0,1,2}^d with d<=3, n<=5 (d<=5 with smaller grids). The "
+                     "rank one place above the top-1/rf cut may go either way (documents leave it open); any order within a Pareto layer is "
+                     "accepted; np.random.choice owned by the harness.",
+                technique="explicit-state model checking of the implementation (history-replay BFS, lock-step reference) combined with bounded-exhaustive input enumeration"),
 }
 
 NOT_YET = {}
